@@ -182,8 +182,9 @@ def _exh_worker(strings):
                     probs.append((key, what, oi, name))
                 if ref is None:
                     ref = r
-                    # cross-check with the plain class through tokutil.impl_run
-                    r0 = tokutil.impl_run(Tokenizer, TSE, s, opts, max_calls=n + 2)
+                    # cross-check with the plain class through tokutil.impl_run (not when the guarded run showed
+                    # that the loop does not end: the plain class has no guard)
+                    r0 = r if any(k == 'nontermination' for k, _w in pr) else tokutil.impl_run(Tokenizer, TSE, s, opts, max_calls=n + 2)
                     if r0 != r:
                         probs.append(('wrong-exception' if r0.get('exc') else 'chunk-dependence',
                                       f'plain Tokenizer gives {r0}, counting subclass {r}', oi, name))
@@ -203,8 +204,14 @@ WORDS = ['a', 'key', 'Value', 'x1', 'model', 'ent', 'ß', 'İ', 'É', 'targetnam
 ESC = ['\\n', '\\t', '\\"', '\\\\', '\\/', '\\?', '\\x', '\\\n', '\\\r\n', '\\\r', "\\'"]
 
 
-def gen_doc(rng):
-    """A KV/FGD-like document with every construct the tokenizer knows, plus garbage."""
+def gen_doc(rng, noisy=None, star=None):
+    """A KV/FGD-like document with every construct the tokenizer knows. Clean documents (70 %) tokenize to EOF under
+    the default options (plus allow_star_comments when they contain a star comment); noisy ones add unterminated
+    constructs, nesting, stray closers and garbage, so that every error site is reached."""
+    if noisy is None:
+        noisy = rng.random() < 0.3
+    if star is None:
+        star = rng.random() < 0.5
     target = rng.randrange(50, 501)
     parts = []
     if rng.random() < 0.25:
@@ -219,7 +226,7 @@ def gen_doc(rng):
         if k < 0.22:
             body = ''.join(rng.choice(ESC) if rng.random() < 0.25 else rng.choice(['a', 'b', ' ', '/', '*', '\n', '\r\n', '\r', '{', '[', '(', '#', 'é'])
                            for _ in range(rng.randrange(0, 12)))
-            p = '"' + body + ('"' if rng.random() < 0.97 else '')
+            p = '"' + body + ('"' if not noisy or rng.random() < 0.97 else '')
         elif k < 0.40:
             p = rng.choice(WORDS)
         elif k < 0.52:
@@ -229,16 +236,23 @@ def gen_doc(rng):
         elif k < 0.68:
             p = rng.choice(['{', '}', '=', ',', ':', '+'])
         elif k < 0.75:
-            p = '//' + ''.join(rng.choice(['a', ' ', '/', '*', '"', '\r', '\\', '[']) for _ in range(rng.randrange(0, 10))) + rng.choice([newline(), ''])
+            p = ' //' + ''.join(rng.choice(['a', ' ', '/', '*', '"', '\r', '\\', '[']) for _ in range(rng.randrange(0, 10))) + rng.choice([newline(), newline(), ''])
         elif k < 0.83:
-            p = '/*' + ''.join(rng.choice(['a', ' ', '*', '/', '\n', '\r\n', '**', '* /', '"']) for _ in range(rng.randrange(0, 10))) + rng.choice(['*/', '*/', '*/', '**/', '*', ''])
+            if not (star or noisy):
+                continue
+            p = ' /*' + ''.join(rng.choice(['a', ' ', '*', 'x/', '\n', '\r\n', '**', '* /', '"']) for _ in range(rng.randrange(0, 10))) \
+                + (rng.choice(['*/', '**/', '***/']) if not noisy else rng.choice(['*/', '*/', '*/', '**/', '*', '']))
         elif k < 0.88:
-            p = '[' + ''.join(rng.choice(['a', '!', ' ', '$', '\r', '*']) for _ in range(rng.randrange(0, 6))) + rng.choice([']', ']', ']', '\n', '[', ''])
+            p = ' [' + ''.join(rng.choice(['a', '!', ' ', '$', '\r', '*']) for _ in range(rng.randrange(0, 6))) \
+                + (']' if not noisy else rng.choice([']', ']', ']', '\n', '[', '']))
         elif k < 0.93:
-            p = '(' + ''.join(rng.choice(['a', ' ', ',', '\n', '\r\n', '"', '/']) for _ in range(rng.randrange(0, 8))) + rng.choice([')', ')', ')', '(', ''])
+            p = ' (' + ''.join(rng.choice(['a', ' ', ',', '\n', '\r\n', '"', '/'] if noisy else ['a', ' ', ',', '\n', '\r\n', 'b/c']) for _ in range(rng.randrange(0, 8))) \
+                + (')' if not noisy else rng.choice([')', ')', ')', '(', '']))
         elif k < 0.97:
-            p = '#' + rng.choice(['Include', 'BASE', 'ß', 'İx', 'a:b', 'a+b', '']) + rng.choice([' ', '\n', '"', ''])
+            p = ' #' + rng.choice(['Include', 'BASE', 'ß', 'İx', 'a:b', 'a+b', '']) + rng.choice([' ', '\n', '"x"', ''])
         else:
+            if not noisy:
+                continue
             p = rng.choice(["'", ';', ']', ')', '/', '/ /', '\ufeff', '\\', '*/', '\x00', '\U0001F600'])
         parts.append(p)
         total += len(p)
@@ -313,7 +327,7 @@ def _doc_worker(jobs):
                     probs.append((key, what, name))
                 if ref is None:
                     ref = r
-                    r0 = tokutil.impl_run(Tokenizer, TSE, s, opts, max_calls=n + 2)
+                    r0 = r if any(k == 'nontermination' for k, _w in pr) else tokutil.impl_run(Tokenizer, TSE, s, opts, max_calls=n + 2)
                     if r0 != r:
                         probs.append(('chunk-dependence', f'plain Tokenizer gives {r0}, counting subclass {r}', name))
                 elif tokutil.strip_exc(r) != tokutil.strip_exc(ref):
@@ -472,9 +486,13 @@ def correspond(ctx, drivers):
     ndocs = ctx.budget(1200, 12000)
     jobs, meta = [], []
     for _ in range(ndocs):
-        s = gen_doc(rng)
+        noisy, star = rng.random() < 0.3, rng.random() < 0.5
+        s = gen_doc(rng, noisy, star)
         optsets = [tokutil.DEFAULT_OPTS, [True, True, True, True, True, False, False]]
         optsets += [[rng.random() < 0.5 for _ in range(7)] for _ in range(2)]
+        if star and not noisy:      # clean documents with star comments: allow them, so the run gets to the end
+            optsets = [o2[:3] + [True] + o2[4:] if rng.random() < 0.85 else o2 for o2 in optsets]
+        ctx.count('doc ' + ('noisy' if noisy else 'clean') + (' with star comments' if star else ''))
         dels = doc_deliveries(rng, s)
         jobs.append((s, optsets, dels))
     t0 = time.time()
@@ -552,28 +570,76 @@ def _check_text(ctx, s, optsets, rng=None, full=False):
 GARBAGE = ['"', '\\', '/', '*', '[', ']', '{', '}', '\r', '\n', ' ', 'a', 'b', '#', '(', ')', '=', ',', "'", ';', '\ufeff', '!', '$']
 
 
-def _kv_parse_check(ctx, text, chunks=None):
+KV_FLAGS = ['x360', '!x360', 'win32', '!win32', '$X360', 'ps3', 'flag', '', '!', 'linux', 'a b']
+KV_OPTS = ['allow_escapes', 'single_line', 'newline_keys', 'newline_values', 'single_block']
+KV_DEFAULT = {'allow_escapes': True, 'single_line': False, 'newline_keys': False, 'newline_values': True, 'single_block': False}
+
+
+def gen_kv(rng, depth=0):
+    """Lines of a KeyValues1 document: leaves and blocks, with and without [flags] (enabled and disabled ones),
+    braces on the same or the next line, the odd stray token."""
+    lines = []
+    for _ in range(rng.randrange(0, 5)):
+        name = rng.choice(['a', 'b', '"a"', '"b c"', 'key', '"k\\n"'])
+        flag = (' [' + rng.choice(KV_FLAGS) + ']') if rng.random() < 0.45 else ''
+        r = rng.random()
+        if r < 0.40:
+            lines.append(f'{name} {rng.choice(["v", chr(34) + "v w" + chr(34), chr(34) + chr(34)])}{flag}')
+        elif r < 0.88 and depth < 3:
+            body = gen_kv(rng, depth + 1)
+            if rng.random() < 0.7:
+                lines += [name + flag, '{'] + body + ['}']
+            else:
+                lines += [name + flag + ' {'] + body + [rng.choice(['}', '} ' + name + ' "x"'])]
+        elif r < 0.94:
+            lines.append(rng.choice(['{', '}', '[x360]', '"lonely"', 'a b c', '// comment', '#base "x"', 'a [x360] b']))
+        else:
+            lines.append(name + flag)
+    return lines
+
+
+def _kv_parse_check(ctx, text, chunks=None, kw=None):
     """Keyvalues.parse on garbage: returns normally or raises KeyValError, nothing else, the same for chunked input."""
+    import traceback
     from srctools.keyvalues import Keyvalues, KeyValError
+    kw = dict(kw or {})
 
     def one(data):
         try:
-            kv = Keyvalues.parse(data)
-            return ('ok', len(list(kv.iter_tree())) if hasattr(kv, 'iter_tree') else 0, None)
+            kv = Keyvalues.parse(data, **kw)
+            return ('ok', kv.serialise() if hasattr(kv, 'serialise') else repr(kv), None, None)
         except KeyValError as e:
-            return ('KeyValError', e.mess, e.line_num)
+            return ('KeyValError', e.mess, e.line_num, None)
         except Exception as e:
-            return ('OTHER', f'{type(e).__name__}: {e}', None)
+            tb = traceback.extract_tb(e.__traceback__)
+            mine = [f.line or '' for f in tb if f.filename.endswith('keyvalues.py') and f.name == 'parse']
+            return ('OTHER', f'{type(e).__name__}: {e}', None, mine[-1] if mine else ((tb[-1].line or '') if tb else ''))
     r = one(text)
+    inp = {'kv': codes(text), 'kw': kw}
     if r[0] == 'OTHER':
-        ctx.witness('kv-wrong-exception', f'Keyvalues.parse({text!r}) raised {r[1]} (only KeyValError is allowed)', {'kv': codes(text)})
+        key = 'kv-wrong-exception'
+        if kw.get('single_block') and r[1].startswith('IndexError') and 'root[0]' in (r[3] or ''):
+            key = 'kv-single-block-skipped'
+        ctx.witness(key, f'Keyvalues.parse({text!r}{", " + repr(kw) if kw else ""}) raised {r[1]} at `{r[3]}` (only KeyValError is allowed)', inp)
         return False
     if chunks is not None:
         r2 = one(list(chunks))
         if r2 != r:
-            ctx.witness('kv-chunk-dependence', f'Keyvalues.parse of {text!r}: whole string {r}, chunks {chunks!r} {r2}', {'kv': codes(text), 'chunks': [codes(c) for c in chunks]})
+            ctx.witness('kv-chunk-dependence', f'Keyvalues.parse of {text!r}: whole string {r[:3]}, chunks {chunks!r} {r2[:3]}', dict(inp, chunks=[codes(c) for c in chunks]))
             return False
     return True
+
+
+class _Probe:
+    """Stand-in for ctx while shrinking."""
+    def __init__(self):
+        self.witnesses = []
+
+    def witness(self, key, what, inp):
+        self.witnesses.append({'key': key, 'what': what, 'input': inp})
+
+    def count(self, *a):
+        pass
 
 
 def search(ctx):
@@ -599,23 +665,47 @@ def search(ctx):
         neigh = [s, s + s, s + '\n', '\n' + s, s + '"', '"' + s] + [s[:i] + s[i + 1:] for i in range(min(len(s), 40))]
         for t in neigh:
             _check_text(ctx, t, optsets, rng, full=True)
-    # (c) Keyvalues.parse: garbage raises KeyValError only, and parses the same when chunked
-    nkv = ctx.budget(4000, 40000)
+    # (c) Keyvalues.parse: garbage and near-valid documents raise KeyValError only, and parse the same when chunked
+    nkv = ctx.budget(6000, 60000)
+    seen_kv = set()
     for i in range(nkv):
-        if i % 3 == 0:
+        kw = {}
+        if i % 4 == 0:
             t = ''.join(rng.choice(GARBAGE) for _ in range(rng.randrange(0, 30)))
-        elif i % 3 == 1:
+        elif i % 4 == 1:
             t = gen_doc(rng)[:rng.randrange(10, 200)]
         else:
-            t = '"k" "v"\n"blk"\n{\n"a" "b" [flag]\n"c" "' + ''.join(rng.choice(GARBAGE) for _ in range(rng.randrange(0, 8))) + '"\n}\n'
-            if rng.random() < 0.5:
+            t = rng.choice(['\n', '\r\n', '\n', ' ']).join(gen_kv(rng)) + rng.choice(['', '\n'])
+            if rng.random() < 0.3 and t:
                 j = rng.randrange(len(t))
                 t = t[:j] + rng.choice(GARBAGE) + t[j + (rng.random() < 0.5):]
+        if i % 2:
+            kw = {k: rng.random() < 0.5 for k in KV_OPTS if rng.random() < 0.4}
         chunks = cut(t, adversarial_cuts(t) | {rng.randrange(1, max(2, len(t))) for _ in range(3)})
-        ok = _kv_parse_check(ctx, t, chunks)
-        ctx.count('Keyvalues.parse garbage')
-        if not ok and len([w for w in ctx.witnesses if w['key'].startswith('kv')]) > 5:
-            break
+        n0 = len(ctx.witnesses)
+        ok = _kv_parse_check(ctx, t, chunks, kw)
+        ctx.count('Keyvalues.parse ' + ('default options' if not kw else 'random parse options'))
+        if not ok:
+            w = ctx.witnesses[n0] if len(ctx.witnesses) > n0 else None
+            if w is not None and w['key'] not in seen_kv:
+                seen_kv.add(w['key'])
+                # shrink by lines, then by characters
+                def fails(parts, key=w['key'], kw=kw, sep=''):
+                    p = _Probe()
+                    _kv_parse_check(p, sep.join(parts), None, kw)
+                    return any(x['key'] == key for x in p.witnesses)
+                if w['key'] != 'kv-chunk-dependence':
+                    ls = t.split('\n')
+                    if len(ls) > 1 and fails(ls, sep='\n'):
+                        ls = common.ddmin(ls, lambda q: fails(q, sep='\n'))
+                    small = '\n'.join(ls)
+                    if len(small) > 1 and fails(list(small)):
+                        small = ''.join(common.ddmin(list(small), fails))
+                    if fails(list(small)):
+                        w['input']['shrunk'] = codes(small)
+                        w['what'] += f' (shrunk to {small!r})'
+            elif w is not None and len(ctx.witnesses) > 12:
+                ctx.witnesses.pop()      # keep the list short: one shrunk witness per kind is enough
     # (d) shrink the first tokenizer witness
     for w in ctx.witnesses:
         inp = w['input']
@@ -624,16 +714,8 @@ def search(ctx):
         s = uncodes(inp['s'])
         opts = inp['opts']
 
-        class _Probe:
-            witnesses = []
-            def witness(self, *a):
-                self.witnesses.append(a)
-            def count(self, *a):
-                pass
-
         def fails(chars):
             p = _Probe()
-            p.witnesses = []
             t = ''.join(chars)
             return _check_text(p, t, [opts], __import__('random').Random(1), full=len(t) <= 8) > 0
         if len(s) > 1 and fails(list(s)):
@@ -646,10 +728,10 @@ def search(ctx):
 def replay(ctx, payload):
     inp = payload.get('input') or {}
     if 'kv' in inp:
-        t = uncodes(inp['kv'])
+        t = uncodes(inp.get('shrunk') or inp['kv'])
         ch = [uncodes(c) for c in inp['chunks']] if 'chunks' in inp else None
-        ok = _kv_parse_check(ctx, t, ch)
-        print('Keyvalues.parse input', repr(t), 'chunks', ch, '->', 'ok' if ok else ctx.witnesses[-1]['what'])
+        ok = _kv_parse_check(ctx, t, ch, inp.get('kw'))
+        print('Keyvalues.parse input', repr(t), 'options', inp.get('kw'), 'chunks', ch, '->', 'only KeyValError / ok' if ok else ctx.witnesses[-1]['what'])
         return ok
     if 's' not in inp:
         print('replay file names a broken obligation/correspondence, no input to replay:', payload.get('broken_obligations'), payload.get('disagreements', [])[:1])
@@ -679,3 +761,13 @@ LEVEL_NOTE = ("Trusted: Lean kernel + propext/Classical.choice/Quot.sound; tools
               "directly on the implementation, not proved. The Cython twin _tokenizer.pyx is not covered.")
 TECHNIQUE = "Lean 4 refinement proof (concrete chunk cursor -> abstract list tokenizer), loop by loop by induction on fuel; translator + exhaustive differential correspondence over all chunkings"
 DESIGN_REF = "DESIGN.md section 6, C03 and Appendix A"
+
+
+def replay_known(ctx, finding):
+    """Does an open known finding still reproduce on the working tree?"""
+    w = finding.get('witness') or {}
+    if 'kv' in w:
+        p = _Probe()
+        _kv_parse_check(p, w['kv'] if isinstance(w['kv'], str) else uncodes(w['kv']), None, w.get('kw'))
+        return any(x['key'] == finding['key'] for x in p.witnesses)
+    return None
